@@ -32,7 +32,7 @@ CASE_TIMEOUT = 180          # a LIVE history (real daemon, real grace periods) t
 
 EXCL = ['stop', 'start', 'restart', 'reload', 'reloadseq', 'reloadterm', 'incr', 'decr', 'setnp']
 NONEX = ['kill', 'kill', 'signal']
-OTHER = ['extkill', 'selfexit', 'check', 'advance', 'advance']
+OTHER = ['extkill', 'selfexit', 'check', 'advance', 'advance', 'clockat']
 READONLY = ['status', 'list', 'numprocesses', 'options', 'stats', 'numwatchers', 'get', 'statusall', 'listall']
 BLOCK_LIMIT = 0.5
 
